@@ -470,7 +470,7 @@ Inductive pcall := PCreated | PUpdated | PDeleted.
 
 Record fs_event := {
   fe_bits : fs_bits; fe_read : fs_read;
-  fe_stat_ok : bool;            (* os.Stat after parsing succeeded *)
+  fe_stat_ok : bool;            (* os.Stat after parsing succeeded; false: the file does not exist any more *)
   fe_proc_ok : bool }.          (* the processor accepted the call (if one is made) *)
 
 (** [st]: the hash stored for this file in p.states (None: file not known).
@@ -495,7 +495,8 @@ Definition fs_changed (f : fixes) (st : option nat) (e : fs_event) : fs_out :=
     | RdOpenErr | RdBad => FsDone {| fr_state := st; fr_calls := []; fr_err := true |}
     | RdParsed h =>
       if negb (fe_stat_ok e) then
-        (if fx4 f then FsDone {| fr_state := st; fr_calls := []; fr_err := true |} else FsExit SStatNil)
+        (* repaired: the error of Stat (file does not exist) is returned, which the caller takes as "deleted" *)
+        (if fx4 f then fs_deleted st e else FsExit SStatNil)
       else
       match st with
       | None =>                       (* len(hash) == 0 *)
